@@ -128,6 +128,21 @@ def with_includes(rng, seq):
 
 def run(ctx):
     obligations, discharged, names = core.standard_prelude(ctx, ["ZCV.Props.C05"])
+    # every name the sequences use also exists as an ENVIRONMENT variable, in every spelling: '$name' / '${name}' must not
+    # fall back on it (only '$(NAME)' reads the environment, and no sequence uses that form)
+    import os
+    saved_env = dict(os.environ)
+    for n_ in NAMES:
+        for sp in {n_, n_.lower(), n_.upper(), n_.capitalize()}:
+            os.environ[sp] = "FROM-ENVIRONMENT"
+    try:
+        return _run(ctx, obligations, discharged, names)
+    finally:
+        os.environ.clear()
+        os.environ.update(saved_env)
+
+
+def _run(ctx, obligations, discharged, names):
     sd = F.SchemaD([F.KeyD("k", "string", multi=True)])
     real = F.load_real(sd)
     elab = F.elaborate(sd)
